@@ -447,7 +447,7 @@ def run(rep: Report, rng, tier: str, known: dict, search: bool = False) -> None:
 def evidence(rep: Report) -> None:
     write_evidence(
         rep,
-        rule="cases = (a, two numerically equal re-spellings of a (int <-> integral float in values, bases, n), a single-site mutant of a: value, name, n, base, class, arity +/-1, argument order); for each pair ==, reversed ==, !=, hash, set/dict membership against the model's beq/hash key; reflexivity, transitivity over the triples; 13 foreign objects; the four derivative objects and points (200 generated pairs: permuted, re-spelled, one value / key changed); non-trivial = >= 3 nodes; distinct by (a, mutant)",
+        rule="cases = (a, two numerically equal re-spellings of a (int <-> integral float in values, bases, n), a single-site mutant of a: value, name, n, base, class, arity +/-1, argument order); for each pair ==, reversed ==, !=, hash, set/dict membership against the model's beq/hash key; reflexivity, transitivity over the triples; 13 foreign objects; the four derivative objects and points (200 generated pairs: permuted, re-spelled, one value / key changed); non-trivial = >= 3 nodes; distinct by (a, mutant); plus constants mutated into neighbours no double tells apart (2**53 / 2**53+1, 10**17+1 / 1e17, ...), equality asked of the exact instance, copies (copy, deepcopy, pickle) of every kind of object",
         trusted=common.TRUSTED + ["CPython's hash of str/int/float/tuple respects =="],
         assumptions=["finite numeric content (NaN excluded)"],
     )
